@@ -151,14 +151,21 @@ func c03SCTListReader(r *Run) {
 			}
 			r.Check("ParseSCTsFromSCTList:every-element-kept", !skip, r.Where(apps[0]), "every element that decodes is appended (no element of the embedded list is skipped)")
 			r.ExpectStores(fn, "ParseSCTsFromSCTList:element", "&(new:[1]*ct.SignedCertificateTimestamp#0[0])", "x509util.ExtractSCT(*)#0", 1)
-			a := baseAlloc(CallArgs(ext[0])[0])
-			src := ""
-			if a != nil {
-				for _, st := range r.StoresTo(fn, r.D.allocName(a)) {
-					src = r.D.D(st.Val)
+			// what is decoded: the list element at the loop position, handed over in place
+			// (&list[i]) or through the per-iteration copy of a range loop (&x, x := list[i])
+			src := elemTerm(r, fn, CallArgs(ext[0])[0])
+			pos := strings.TrimSuffix(strings.TrimPrefix(src, "p0.SCTList["), "]")
+			inOrder := src == "p0.SCTList["+pos+"]" && isLoopPos(pos)
+			why := ""
+			if inOrder {
+				// … of a loop that goes through the whole list front to back, and the decoded
+				// element is appended within that same loop
+				inOrder, why = loopSweeps(r, fn, pos, "p0.SCTList", false)
+				if n, err := parseInt(strings.TrimPrefix(pos, "it@")); inOrder && (err != nil || !fn.Blocks[n].Dominates(apps[0].Block()) || !blockReachesBlock(apps[0].Block(), fn.Blocks[n])) {
+					inOrder, why = false, "the append is outside that loop"
 				}
 			}
-			r.Check("ParseSCTsFromSCTList:in-order", glob("p0.SCTList[it@*]", src), r.Where(ext[0]), "element i of the result is decoded from element i of the list: "+src)
+			r.Check("ParseSCTsFromSCTList:in-order", inOrder, r.Where(ext[0]), "element i of the result is decoded from element i of the list: "+src+" "+why)
 		} else {
 			r.Fail("ParseSCTsFromSCTList:shape", r.FnPos(fn), fmt.Sprintf("undecided: %d append / %d ExtractSCT sites", len(apps), len(ext)))
 		}
